@@ -73,7 +73,7 @@ func (m MsgSpec) commentLines() []string {
 
 var c02Tokens = []string{"\n", "\r", "a", ":", " ", "data: x", "id: z", "event: e", "retry: 5", "\xEF\xBB\xBF", "\x00"}
 
-var retries = []int64{-1, 0, int64(999 * time.Microsecond), int64(time.Millisecond), int64(1500 * time.Microsecond), int64(time.Second), math.MaxInt64}
+var retries = []int64{-1, 0, int64(999 * time.Microsecond), int64(time.Millisecond), int64(1500 * time.Microsecond), int64(time.Second), math.MaxInt64, -int64(time.Millisecond), -int64(time.Hour), math.MinInt64}
 
 // expected computes what a sequence of messages must decode to. strict: a spec parser (events only for
 // messages with data); otherwise go-sse's own Read (also for messages that set an ID or a type).
